@@ -411,6 +411,12 @@ func (app *App) stateManager() appState {
 		return stateManager
 	}
 
+	if clusterState[master] == nil || clusterStateDcs[master] == nil {
+		// recorded master is not (or no longer) a registered host: nothing below can work with it
+		app.logger.Error().Msgf("master %s is not a registered cluster host", master)
+		return stateManager
+	}
+
 	// activeNodes are master + alive running replicas
 	activeNodes, err := app.GetActiveNodes()
 	if err != nil {
